@@ -5,6 +5,13 @@ import copy
 
 from hypothesis import strategies as st
 
+from reactivex.disposable import (
+    CompositeDisposable,
+    Disposable,
+    MultipleAssignmentDisposable,
+    SerialDisposable,
+    SingleAssignmentDisposable,
+)
 from reactivex.scheduler import CatchScheduler
 
 from vlib.core import FAIL, OK, Check
@@ -24,7 +31,7 @@ RULE = (
     "start(), in order, as the same objects, nothing else escapes; (3) the invocation log [node, clock(, periodic state)] "
     "equals the model's - in particular no periodic tick after a raise, whatever the verdict; (4) differential: the same "
     "forest with all raises removed gives the same log on CatchScheduler as on the bare TestScheduler and never calls the "
-    "handler; (5) the wrapped scheduler runs exactly one item per modelled invocation (a counting subclass of the inner scheduler): a stopped periodic action leaves no live timer behind. Periodic nodes live up to 12 ticks and may schedule children from inside a tick (through the scheduler captured at creation or the outer one; immediately or after less than one period). Non-trivial: a raise actually executed at depth >= 1 (inside an action scheduled from an action) or inside "
+    "handler; actions may RETURN a disposable standing for the work they scheduled - the child's handle itself, or a SingleAssignment/MultipleAssignment/Serial/Composite/plain Disposable around it - and 'dispose' ops dispose the handle of any scheduled node before, while or after it ran: as on the bare scheduler, the item's handle owns what the action returned, so disposing the parent's handle cancels not-yet-run nested work (modelled; also covered by the differential run); (5) the wrapped scheduler runs exactly one item per modelled invocation (a counting subclass of the inner scheduler): a stopped periodic action leaves no live timer behind. Periodic nodes live up to 12 ticks and may schedule children from inside a tick (through the scheduler captured at creation or the outer one; immediately or after less than one period). Non-trivial: a raise actually executed at depth >= 1 (inside an action scheduled from an action) or inside "
     "a periodic action. Part of the forests are built with >= 2 periodic actions alive together on one CatchScheduler (roots, or siblings created through one handed scheduler) so that one raises while another still ticks - the survivor must tick on exactly as modelled. Every run is fused: a harness action at a statically computed horizon stops the inner scheduler, so never-ending periodic work gives a verdict, not a hang. Distinct = distinct case JSON."
 )
 ASSUMPTIONS = [
@@ -102,7 +109,35 @@ def _execute(nodes, verdicts, wrapped, K="test"):
         return verdicts[(len(handled) - 1) % len(verdicts)]
 
     outer = CatchScheduler(inner, handler) if wrapped else inner
-    disps = {}
+    disps = {}  # node id -> handle returned by schedule* / schedule_periodic
+    order = []  # node ids in scheduling order (targets of the 'dispose' op are taken modulo this list)
+
+    def returned(node, kids_scheduled):
+        """The disposable the action returns (the `return scheduler.schedule(...)` idiom and friends)."""
+        ret = node.get("ret")
+        if not ret or not kids_scheduled:
+            return None
+        kind, idx = ret
+        one = disps[kids_scheduled[idx % len(kids_scheduled)]]
+        if kind == "handle":
+            return one
+        if kind == "sad":
+            d = SingleAssignmentDisposable()
+            d.disposable = one
+            return d
+        if kind == "mad":
+            d = MultipleAssignmentDisposable()
+            d.disposable = one
+            return d
+        if kind == "serial":
+            d = SerialDisposable()
+            d.disposable = one
+            return d
+        if kind == "composite":
+            return CompositeDisposable(*[disps[k] for k in kids_scheduled])
+        if kind == "plain":
+            return Disposable(one.dispose)
+        raise AssertionError(kind)
 
     def boom(tag, exc_type):
         ex = make_exc(exc_type or "tagged", tag)
@@ -128,23 +163,30 @@ def _execute(nodes, verdicts, wrapped, K="test"):
                     disps[nid].dispose()
                 return state + 1
 
+            order.append(nid)
             disps[nid] = sched.schedule_periodic(enc_rel(K, t, form), paction, state=10 * nid)
             return
 
         def action(scheduler, state=None):
             log.append([nid, clock_of(K, inner)])
+            mine = []
             for op in node["ops"]:
                 if op[0] == "raise":
                     boom(f"n{nid}", node.get("exc"))
+                elif op[0] == "dispose":
+                    disps[order[op[1] % len(order)]].dispose()
                 else:
                     schedule(op[1], scheduler if op[1].get("via", "handed") == "handed" else outer)
+                    mine.append(op[1]["id"])
+            return returned(node, mine)
 
+        order.append(nid)
         if how == "now":
-            sched.schedule(action)
+            disps[nid] = sched.schedule(action)
         elif how == "rel":
-            sched.schedule_relative(enc_rel(K, t, form), action)
+            disps[nid] = sched.schedule_relative(enc_rel(K, t, form), action)
         else:
-            sched.schedule_absolute(enc_abs(K, t, form), action)
+            disps[nid] = sched.schedule_absolute(enc_abs(K, t, form), action)
 
     for n in nodes:
         schedule(n, outer)
@@ -199,6 +241,26 @@ def _model(nodes, verdicts, K="test"):
     info = {"deep_raise": 0, "periodic_raise": 0, "raise": 0}
 
     live = set()  # periodic nodes created and not yet stopped
+    order = []  # node ids in scheduling order
+    entry_of = {}  # node id -> its pending entry (for a periodic node: the entry of its next tick)
+    disposed = set()  # node ids whose handle has been disposed
+    owned = {}  # node id -> ids of the nodes whose handles the disposable returned by its action owns
+
+    def dispose(nid, cascaded=False):
+        """Dispose the handle of node nid: a not-yet-run action / the next periodic tick is cancelled, and the disposable
+        the action returned (if it ran) is disposed with it - which cancels the nested work it stands for."""
+        if nid in disposed:
+            return
+        disposed.add(nid)
+        e = entry_of.get(nid)
+        if e is not None and not e.done:
+            e.cancelled = True
+            info["effective_dispose"] = info.get("effective_dispose", 0) + 1
+            if cascaded:
+                info["dispose_reached_returned"] = 1
+        live.discard(nid)
+        for c in owned.pop(nid, ()):
+            dispose(c, True)
 
     def raise_(tag, node):
         handled.append(tag)
@@ -216,15 +278,16 @@ def _model(nodes, verdicts, K="test"):
 
     def schedule(node):
         how, t = node["how"], node["t"]
+        order.append(node["id"])
         if how == "per":
             live.add(node["id"])
-            m.schedule_relative(t, ("tick", node, 1, 10 * node["id"]))
+            entry_of[node["id"]] = m.schedule_relative(t, ("tick", node, 1, 10 * node["id"]))
         elif how == "now":
-            m.schedule(("act", node))
+            entry_of[node["id"]] = m.schedule(("act", node))
         elif how == "rel":
-            m.schedule_relative(t, ("act", node))
+            entry_of[node["id"]] = m.schedule_relative(t, ("act", node))
         else:
-            m.schedule_absolute(t, ("act", node))
+            entry_of[node["id"]] = m.schedule_absolute(t, ("act", node))
 
     def run(e):
         p = e.payload
@@ -233,11 +296,30 @@ def _model(nodes, verdicts, K="test"):
         if p[0] == "act":
             node = p[1]
             log.append([node["id"], m.clock])
+            mine = []
             for op in node["ops"]:
                 if op[0] == "raise":
                     raise_(f"n{node['id']}", node)
-                    return  # handled: the rest of the action body is skipped
+                    return  # handled: the rest of the action body is skipped (and nothing is returned)
+                if op[0] == "dispose":
+                    target = order[op[1] % len(order)]
+                    info["dispose_ops"] = info.get("dispose_ops", 0) + 1
+                    if target == node["id"]:
+                        info["dispose_self_while_running"] = 1
+                    dispose(target)
+                    continue
                 schedule(op[1])
+                mine.append(op[1]["id"])
+            ret = node.get("ret")
+            if ret and mine:
+                kind, idx = ret
+                got = list(mine) if kind == "composite" else [mine[idx % len(mine)]]
+                info.setdefault("ret_kinds", set()).add(kind)
+                if node["id"] in disposed:  # handle disposed while the action was running: what it returns is disposed at once
+                    for c in got:
+                        dispose(c, True)
+                else:
+                    owned[node["id"]] = got
         else:
             _, node, k, state = p
             log.append([node["id"], m.clock, state])
@@ -247,14 +329,16 @@ def _model(nodes, verdicts, K="test"):
                     schedule(kid)
             if k == node["raise_at"]:
                 live.discard(node["id"])
+                disposed.add(node["id"])
                 raise_(f"p{node['id']}.{k}", node)
                 return  # handled: periodic work stops
             if k >= node["stop_at"]:
                 live.discard(node["id"])
+                disposed.add(node["id"])
                 return  # disposed itself
             if info.get("overlap"):
                 info["survivor_tick"] = 1  # a non-raising periodic action keeps ticking after another one raised
-            m.schedule_relative(node["t"], ("tick", node, k + 1, state + 1))
+            entry_of[node["id"]] = m.schedule_relative(node["t"], ("tick", node, k + 1, state + 1))
 
     for n in nodes:
         schedule(n)
@@ -290,6 +374,16 @@ def _run(case):
         cls.append("raised:" + t)
     if info.get("periodic_kids"):
         cls.append("periodic-action-schedules-children")
+    for k in sorted(info.get("ret_kinds", ())):
+        cls.append("returns:" + k)
+    if info.get("dispose_ops"):
+        cls.append("dispose-op-executed")
+    if info.get("effective_dispose"):
+        cls.append("dispose-cancels-pending-work")
+    if info.get("dispose_reached_returned"):
+        cls.append("dispose-of-parent-handle-cancels-returned-nested-work")
+    if info.get("dispose_self_while_running"):
+        cls.append("dispose-own-handle-while-running")
     if any(n["how"] == "per" and n["stop_at"] > 5 for n, _ in _walk(nodes)):
         cls.append("periodic-lifetime>5-ticks")
     if info.get("overlap"):
@@ -395,19 +489,41 @@ def _fix_periodic(n):
 
 
 def _node(depth):
+    disp = st.tuples(st.just("dispose"), st.integers(0, 6)).map(list)  # dispose the handle of the (k mod n)-th scheduled node
     if depth == 0:
-        ops = st.lists(st.just(["raise"]), max_size=1)
+        ops = st.lists(st.one_of(st.just(["raise"]), disp), max_size=1)
     else:
         child = st.tuples(st.just("child"), st.one_of(_node(depth - 1), _node(depth - 1), _periodic(depth - 1))).map(list)
-        ops = st.lists(st.one_of(child, child, child, st.just(["raise"])), max_size=3).map(_one_raise)
+        ops = st.lists(st.one_of(child, child, child, child, st.just(["raise"]), disp), max_size=3).map(_one_raise)
     plain = st.one_of(
         st.fixed_dictionaries({"how": st.just("now"), "t": st.just(0), "form": st.none()}),
         st.fixed_dictionaries({"how": st.just("rel"), "t": _T, "form": st.sampled_from(["num", "int", "td"])}),
         st.fixed_dictionaries({"how": st.just("abs"), "t": st.integers(0, 12), "form": st.sampled_from(["num", "int", "dt"])}),
     )
-    return st.tuples(plain, ops, st.sampled_from(["handed", "handed", "handed", "outer"]), _EXC).map(
-        lambda t: dict(t[0], ops=t[1], via=t[2], exc=t[3])
+    return st.tuples(plain, ops, st.sampled_from(["handed", "handed", "handed", "outer"]), _EXC, _RET).map(
+        lambda t: dict(t[0], ops=t[1], via=t[2], exc=t[3], ret=t[4])
     )
+
+
+RET_KINDS = ("handle", "sad", "mad", "serial", "composite", "plain")
+# what the action returns: nothing, or a disposable of some kind standing for (one of / all of) the work it scheduled
+_RET = st.one_of(st.none(), st.tuples(st.sampled_from(RET_KINDS), st.integers(0, 2)).map(list))
+
+
+def _owner_and_disposer(depth):
+    """A parent that returns a disposable for delayed nested work, and a later action that disposes the parent's handle
+    after the parent ran and (often) before the nested work is due."""
+    delayed = st.one_of(_node(depth - 1), _periodic()).flatmap(
+        lambda c: st.integers(2, 9).map(lambda t: dict(c, how=c["how"] if c["how"] == "per" else "rel", t=t if c["how"] != "per" else c["t"], form="num" if c["how"] != "per" else c["form"]))
+    )
+    parent = st.tuples(st.lists(delayed, min_size=1, max_size=2), st.sampled_from(RET_KINDS), st.integers(0, 1), st.sampled_from(["now", "rel"])).map(
+        lambda t: {"how": t[3], "t": 0 if t[3] == "now" else 1, "form": None if t[3] == "now" else "num", "ops": [["child", c] for c in t[0]],
+                   "via": "handed", "exc": "tagged", "ret": [t[1], t[2]]}  # fmt: skip
+    )
+    disposer = st.tuples(st.integers(0, 10), st.integers(0, 2)).map(
+        lambda t: {"how": "abs", "t": t[0], "form": "num", "ops": [["dispose", t[1]]], "via": "handed", "exc": "tagged", "ret": None}
+    )
+    return st.tuples(parent, disposer, st.lists(_node(depth - 1), max_size=1)).map(lambda t: [t[0], t[1]] + t[2])
 
 
 def _one_raise(ops):
@@ -432,6 +548,7 @@ def _cases(depth):
                 st.tuples(_node(0), st.lists(_periodic(), min_size=2, max_size=3)).map(
                     lambda t: [dict(t[0], ops=[["child", p] for p in t[1]] + [op for op in t[0]["ops"]])]
                 ),
+                _owner_and_disposer(depth),
             ),
             "verdicts": st.lists(st.booleans(), min_size=1, max_size=4),
             "inner": st.sampled_from(["test", "test", "hist", "vts"]),
